@@ -2,16 +2,22 @@
    model mode prints "I:<start bytes> <ret>:<bytes>..."; oracle mode reads "<case> | <obs>",
    interprets the implementation's bytes with the extracted VT and checks every request's
    effect with the extracted [oracle_walk]. *)
-let parse_req (s : string) : req =
+let maybe_of s = match int_of_string s with 0 -> MNo | 1 -> MYes | _ -> MMaybe
+(* every op is a call of the public API of term.c *)
+let parse_api (s : string) : api =
   match split_on ':' s with
-  | ["G"; l; c] -> RGoto (zi l, zi c)
-  | ["M"; d; r] -> RMove (zi d, zi r)
-  | ["P"; h] -> RPrint (bytes_of_hex h)
-  | ["E"; n; me] -> RErase (zi n, (match int_of_string me with 0 -> MNo | 1 -> MYes | _ -> MMaybe))
-  | ["K"] -> RClear
-  | ["S"; t; l; h; w; d; r] -> RScroll ({ r_top = zi t; r_left = zi l; r_lines = zi h; r_cols = zi w }, zi d, zi r)
-  | ["c"; p] -> RChpen (parse_pen p)
-  | ["s"; p] -> RSetpen (parse_pen p)
+  | ["G"; l; c] -> AGoto (zi l, zi c)
+  | ["M"; d; r] -> AMove (zi d, zi r)
+  | ["P"; h] -> let b = bytes_of_hex h in APrintn (b, z_of_int (List.length b))
+  | ["p"; h] -> APrint (bytes_of_hex h)
+  | ["n"; h; len] -> APrintn (bytes_of_hex h, zi len)
+  | ["E"; n; me] -> AErasech (zi n, maybe_of me)
+  | ["K"] -> AClear
+  | ["S"; t; l; h; w; d; r] -> AScrollrect ({ r_top = zi t; r_left = zi l; r_lines = zi h; r_cols = zi w }, zi d, zi r)
+  | ["c"; p] -> AChpen (parse_pen p)
+  | ["s"; p] -> ASetpen (parse_pen p)
+  | ["O"; n] -> ASetOutputBuffer (zi n)
+  | ["F"] -> AFlush
   | _ -> failwith "op"
 let parse_case toks =
   match toks with
@@ -19,42 +25,54 @@ let parse_case toks =
     let caps = { cap_cursorshape = true; cap_slrm = (slrm <> "0"); cap_colon = (colon <> "0"); cap_rgb8 = (rgb <> "0") } in
     let d = { x_caps = caps; x_mode = xdrv_new.x_mode; x_init = xdrv_new.x_init } in
     let t = { t_drv = d; t_started = true; t_pen = empty_pen; t_lines = zi lines; t_cols = zi cols } in
-    (t, List.map parse_req ops)
+    (t, List.map parse_api ops)
   | _ -> failwith "case"
 let model line =
-  let (t, reqs) = parse_case (split_ws line) in
+  let (t, calls) = parse_case (split_ws line) in
   let b = Buffer.create 256 in
   Buffer.add_string b ("I:" ^ hex_of_bytes (render xt_start));
-  let _ = List.fold_left (fun t q ->
+  let _ = List.fold_left (fun t a ->
       match t with
       | None -> Buffer.add_string b " FAULT"; None
       | Some t ->
-        (match drv_req t q with
+        (match api_step t a with
          | None -> Buffer.add_string b " FAULT"; None
-         | Some ((t', ret), toks) ->
-           Buffer.add_string b (Printf.sprintf " %d:%s" (if ret then 1 else 0) (hex_of_bytes (render toks)));
-           Some t')) (Some t) reqs in
+         | Some ((t', toks), res) ->
+           (* the harness prints the boolean result of goto / scrollrect, 1 for void calls *)
+           let r = (match res with Some v -> int_of_z v | None -> 1) in
+           Buffer.add_string b (Printf.sprintf " %d:%s" r (hex_of_bytes (render toks)));
+           Some t')) (Some t) calls in
   Buffer.contents b
-let oracle walk line =
+let oracle excl walk line =
   match String.split_on_char '|' line with
   | [c; o] ->
-    let (t, reqs) = parse_case (split_ws c) in
+    let (t, calls) = parse_case (split_ws c) in
     (match split_ws o with
-     | init :: obs when String.length init >= 2 && String.sub init 0 2 = "I:" && List.length obs = List.length reqs ->
+     | init :: obs when String.length init >= 2 && String.sub init 0 2 = "I:" && List.length obs = List.length calls ->
        let start = bytes_of_hex (String.sub init 2 (String.length init - 2)) in
        let v0 = vt_freeze (with_pattern (vt_run_bytes start (vt_init t.t_lines t.t_cols))) in
-       let items = List.map2 (fun q ob ->
-           match split_on ':' ob with
-           | [r; h] -> ((q, r <> "0"), bytes_of_hex h)
-           | _ -> failwith "obs") reqs obs in
-       (match walk O v0 items with
-        | VOk n -> Printf.sprintf "OK %d" (int_of_nat n)
-        | VOutOfRange i -> Printf.sprintf "OK range@%d" (int_of_nat i)
-        | VBadAt i -> Printf.sprintf "BAD @%d" (int_of_nat i))
+       let pairs = List.combine calls obs in
+       (* with [excl], the judgement ends before the first printn(str, 0) of a non-empty string *)
+       let rec cut = function [] -> [] | (a, _) :: _ when excl && printn_trigger a -> [] | x :: r -> x :: cut r in
+       let pairs = cut pairs in
+       let parse_ob ob = (match split_on ':' ob with [r; h] -> (r <> "0", bytes_of_hex h) | _ -> failwith "obs") in
+       (* quiet calls (flush, set_output_buffer) must write nothing and are not requests *)
+       if List.exists (fun (a, ob) -> req_of_api a = None && (not (quiet_api a) || snd (parse_ob ob) <> [])) pairs
+       then "BAD quiet call wrote bytes"
+       else begin
+         let items = List.filter_map (fun (a, ob) ->
+             match req_of_api a with
+             | None -> None
+             | Some q -> let (r, bytes) = parse_ob ob in Some ((q, r), bytes)) pairs in
+         match walk O v0 items with
+         | VOk n -> Printf.sprintf "OK %d" (int_of_nat n)
+         | VOutOfRange i -> Printf.sprintf "OK range@%d" (int_of_nat i)
+         | VBadAt i -> Printf.sprintf "BAD @%d" (int_of_nat i)
+       end
      | _ -> "BAD obs")
   | _ -> "BAD line"
 let () =
   let mode = if Array.length Sys.argv > 1 then Sys.argv.(1) else "model" in
-  let f = match mode with "oracle" -> oracle oracle_walk | "oracle-excl" -> oracle oracle_walk_excl | _ -> model in
+  let f = match mode with "oracle" -> oracle false oracle_walk | "oracle-excl" -> oracle true oracle_walk_excl | _ -> model in
   iter_lines (fun l -> print_endline (try f l with Failure m -> (if mode <> "model" then "BAD ERR " else "ERR ") ^ m
                                                  | Invalid_argument m -> "BAD ERR " ^ m))
